@@ -11,7 +11,7 @@ NOTES={
  'C08_E':'missed before the success-means-moved clause was added',
  'C19_E':'missed before the call-order and kept-only-after-merging clauses on merge were added',
  'C20_D':'missed before the output clause demanded that every patch was applied',
- 'C15_D':'missed before the Apply loop\'s closed callee list counted for C15',
+ 'C15_D':'missed before the Apply loop\'s closed callee list counted for C15, and again in the final sweep until functions were selected by callee-list tags as well (re-run alone after that repair)',
  'C05_F':'missed before the success-means-moved clause and move\'s closed callee list counted for C05',
  'C18_F':'missed before the failures-have-causes clauses were added',
  'C02_F':'missed until the write-set defect was repaired (the new clauses on doMergePatch had held vacuously for object documents)',
